@@ -6,6 +6,7 @@ import (
 	"encoding/json"
 	"fmt"
 	"math/big"
+	"os"
 	"runtime"
 	"strings"
 
@@ -96,7 +97,7 @@ type scn struct {
 	kvAddr                          *types.Address    // address of the deployed WASM storage contract (nil if not deployed)
 	kvSeq                           int
 	funded                          map[string]bool // accounts that exist with a balance (the API reader only polls those)
-	relaySet                        map[int]bool // validator indexes in the trust root currently stored for the other BitXHub (observed)
+	relaySet                        map[int]bool    // validator indexes in the trust root currently stored for the other BitXHub (observed)
 	relayN                          int
 	icCum                           uint64      // C09: interchain transactions counted over all blocks (incl. the prologue)
 	prevRefDump                     [][2]string // state store of the reference replica after the previous block (only kept when there are other replicas)
@@ -663,6 +664,22 @@ func (s *scn) flush() *blockResult {
 		}
 		var br *blockResult
 		var err error
+		if r.pol.Compete > 0 && !s.inSetup && len(txs) > 0 && sim.NewRand(uint64(h)*0x2545f4914f6cdd1d+uint64(r.id)*31+uint64(len(txs))).Chance(float64(r.pol.Compete)/1000) {
+			// the head is replaced: a competing block of this height is executed first, then the real one arrives
+			if _, err := r.execute(competingBlock(ev, int(h)%len(txs)), 12*time.Second); err != nil {
+				s.res.Aborted = "competing block: " + err.Error()
+				return nil
+			}
+			s.res.Count("fault_head_block_replaced")
+			if sub := os.Getenv("VERIF_DBG_KEY"); sub != "" {
+				for _, kv := range r.stateDump() {
+					if strings.Contains(kv[0], sub) {
+						fmt.Fprintf(os.Stderr, "DBG replica %d after competing block %d: %q = %q\n", r.id, h, kv[0], kv[1])
+					}
+				}
+			}
+			s.logf("  replica %d executed a competing block %d (without tx %d) first", r.id, h, int(h)%len(txs))
+		}
 		if r.pol.Reader && !s.inSetup && len(results) > 0 {
 			// keys and accounts the block changed, as seen on the reference replica
 			changed := sim.DiffDumps(s.prevRefDump, s.reps[0].stateDump())
@@ -730,6 +747,13 @@ func (s *scn) flush() *blockResult {
 			return nil
 		}
 		results = append(results, br)
+		if sub := os.Getenv("VERIF_DBG_KEY"); sub != "" {
+			for _, kv := range r.stateDump() {
+				if strings.Contains(kv[0], sub) {
+					fmt.Fprintf(os.Stderr, "DBG replica %d after block %d: %q = %q\n", r.id, h, kv[0], kv[1])
+				}
+			}
+		}
 	}
 	ref := results[0]
 	s.height = h
@@ -837,8 +861,15 @@ func (s *scn) compareReplicas(h uint64, results []*blockResult) {
 		where := fmt.Sprintf("block %d, replica %d (proof=%s cache=%d restarts=%v) vs replica 0", h, i, s.reps[i].pol.ProofType, s.reps[i].pol.Cache, s.reps[i].pol.RestartAt)
 		switch {
 		case o.Header.StateRoot.String() != ref.Header.StateRoot.String():
-			d := sim.DiffDumps(refDump, s.reps[i].stateDump())
-			s.vio("C01", "diverged", "state-root", "%s: state roots differ (%s vs %s); differing state keys: %q", where, ref.Header.StateRoot.String()[:14], o.Header.StateRoot.String()[:14], trimKeys(d))
+			od := s.reps[i].stateDump()
+			d := sim.DiffDumps(refDump, od)
+			vals := ""
+			if len(d) <= 3 {
+				for _, k := range d {
+					vals += fmt.Sprintf(" [%s: %q vs %q]", trimKeys([]string{k})[0], dumpValue(refDump, k), dumpValue(od, k))
+				}
+			}
+			s.vio("C01", "diverged", "state-root", "%s: state roots differ (%s vs %s); differing state keys: %q%s", where, ref.Header.StateRoot.String()[:14], o.Header.StateRoot.String()[:14], trimKeys(d), vals)
 		case o.Header.TxRoot.String() != ref.Header.TxRoot.String():
 			s.vio("C01", "diverged", "tx-root", "%s: transaction roots differ", where)
 		case o.Header.ReceiptRoot.String() != ref.Header.ReceiptRoot.String():
@@ -857,8 +888,29 @@ func (s *scn) compareReplicas(h uint64, results []*blockResult) {
 		if !bytes.Equal(metaBytes(ref.Meta), metaBytes(o.Meta)) {
 			s.vio("C01", "diverged", "delivery-meta", "%s: per-block delivery metadata differs:\n  %s\n  %s", where, metaString(ref.Meta), metaString(o.Meta))
 		}
-		if d := sim.DiffDumps(refDump, s.reps[i].stateDump()); len(d) > 0 {
-			s.vio("C01", "diverged", "state-content", "%s: state stores differ in keys %q", where, trimKeys(d))
+		if od := s.reps[i].stateDump(); len(sim.DiffDumps(refDump, od)) > 0 {
+			d := sim.DiffDumps(refDump, od)
+			vals := ""
+			if len(d) <= 3 {
+				for _, k := range d {
+					vals += fmt.Sprintf(" [%s: %q vs %q]", trimKeys([]string{k})[0], dumpValue(refDump, k), dumpValue(od, k))
+				}
+			}
+			discr := "state-content"
+			onlyEmpty := true
+			for _, k := range d {
+				a, b := dumpValue(refDump, k), dumpValue(od, k)
+				if !((a == "<absent>" && b == "") || (a == "" && b == "<absent>")) || strings.HasPrefix(k, "account-") || strings.HasPrefix(k, "code-") {
+					onlyEmpty = false
+				}
+			}
+			if onlyEmpty {
+				// known family (root cause of C13/get/empty-value): whether a storage key that holds an empty value exists in
+				// the database depends on the history (x -> "" is stored, nothing -> "" is not, a rollback restores "" as a
+				// stored empty value); the state root does not see the difference
+				discr = "state-content/storage-key-absent-vs-empty"
+			}
+			s.vio("C01", "diverged", discr, "%s: state stores differ in keys %q%s", where, trimKeys(d), vals)
 		}
 		if len(s.res.Violations) > 0 {
 			s.fatal = true
